@@ -5,6 +5,23 @@ import copy
 from harness import ev, tlc
 
 
+import logging
+
+
+def set_debug(on):
+    lg = logging.getLogger('oslo_policy.policy')
+    if on:
+        logging.disable(logging.NOTSET)
+        lg.setLevel(logging.DEBUG)
+        if not lg.handlers:
+            lg.addHandler(logging.NullHandler())
+        lg.propagate = False
+    else:
+        lg.setLevel(logging.WARNING)
+        logging.disable(logging.CRITICAL)
+
+
+
 class Opq:
     pass
 
@@ -37,7 +54,7 @@ def dflt_spec(dflt):
 
 
 def enforce_case(rules, call, target, creds, dflt=None, registered=(), enforce_scope=True, check_scopes=(),
-                 http=None, checklog=0, rng=None, want='', creds_obj=None, enforcer=None, extra=None, via='rules_obj'):
+                 http=None, checklog=0, rng=None, want='', creds_obj=None, enforcer=None, extra=None, via='rules_obj', target_obj=None):
     """rules: list of (name, tree).  call: dict(by, name|tree, doraise, custom,
     authorize, credskind[, xargs, xkw]).  target/creds: Python values (creds
     may be replaced by ``creds_obj`` - e.g. a RequestContext - for the real
@@ -46,7 +63,7 @@ def enforce_case(rules, call, target, creds, dflt=None, registered=(), enforce_s
     texts = {n: ev.rule_text(t, rng) for n, t in rules}
     reg = [(n, list(sc), ev.rule_text(dict(rules)[n]) if n in dict(rules) else '!') for n, sc in registered]
     e = enforcer or ev.make_enforcer(texts, dflt, reg, enforce_scope, via)
-    tgt = _snapshot(target)
+    tgt = target_obj if target_obj is not None else _snapshot(target)
     before = fingerprint(tgt)
     crd = creds_obj if creds_obj is not None else _snapshot(creds)
     xargs = call.get('xargs', [])
@@ -167,9 +184,9 @@ class Session:
         self.log.append('clear()')
         self.cur = []
 
-    def enforce(self, call, target, creds, checklog=0):
+    def enforce(self, call, target, creds, checklog=0, same_objects=False):
         c = enforce_case(self.cur, call, target, creds, dflt=self.dflt, registered=self.registered, enforce_scope=self.enforce_scope,
-                         checklog=checklog, enforcer=self.e)
+                         checklog=checklog, enforcer=self.e, creds_obj=creds if same_objects else None, target_obj=target if same_objects else None)
         evn = strip_case(c)
         evn['op'] = 'enforce'
         self.trace['events'].append(evn)
